@@ -119,8 +119,17 @@ def report(chk, obs, verdicts):
     for v in verdicts:
         o = obs[v['id']]
         spec = v['spec']
+        sup = sorted(v.get('sup') or [])
         for c in v['v']:
             key = vkey(spec, o, c)
+            if sup:
+                # a disagreement on a string with superfluous (but determinate) prefixes is a class of its own: a finding
+                # listed for it never covers the same symptom on a string without them
+                key['sup'] = [k for k in ('unused66', 'unusedseg', 'unused67', 'repeated') if k in sup][0]   # the most specific kind names the class
+                if 'unused66' in sup and key['row'].startswith('x87') and key['clause'] in ('C01.kind', 'C01.size'):
+                    key['row'], key['mn'] = 'x87 *', '*'       # one root cause: the 66 prefix changes how an x87 instruction is shown
+                elif 'unused66' in sup and key['clause'] == 'C01.mnemonic' and 'mp' in spec['use'] and any(p in (0xF2, 0xF3) for p in spec['pfx']):
+                    key['row'], key['mn'], key['shape'] = '*', '*', 'mandatory F2/F3 prefix accompanied by 66: the 66 row is shown'
             detail = {'bytes': bytes(o['b']).hex(), 'miasmx_text': o.get('text'), 'miasmx_len': o.get('len'),
                       'miasmx_ops': o.get('ops'), 'spec': spec, 'failing_clauses': v['v']}
             if chk.violation(key, detail):
@@ -229,7 +238,7 @@ def run(tier, chk):
                        'combinations with at most MaxDev fields outside their base set) + seeded random structured strings; '
                        'distinct_nontrivial = strings both decoders accept without superfluous prefixes (compared clause by clause)')
     chk.assumptions += ['32-bit protected mode, flat; Intel SDM opcode maps as transcribed in IA32Tables.tla',
-                        'prefixes classified superfluous by IA32Decode.Meaningful are skipped (counted), as the property states',
+                        'strings whose prefixes have no determinate meaning (IA32Decode.Determinate: lock on an unlockable instruction, rep on a non-string instruction, several segment prefixes ...) are skipped (counted); repeated 66/67 and unused 66/67/segment prefixes are compared',
                         'the Intel rendering is read by a liberal tokenizer (vf/instr_abs.py)']
 
 
